@@ -140,6 +140,16 @@ def plan_C01(tier, seed):
             xs = stream_patterns(rng, length, -30, 30, lively=(n % 2 == 0))
             script = [new_op(1)] + [s_op(1, x) for x in xs]
             jobs.append(scripted("%s_big_n%d" % (kd, n), {1: cfg(kd, n, m=rng.choice(MULTS))}, script))
+    # every period of a range beyond the exhaustive ones (paths that depend on period mod 4, a power of two, a small-buffer threshold):
+    # one instance per period, three windows of values and one early spike
+    for kd in WINDOWED:
+        ids, ops = {}, []
+        for k, n in enumerate(range(6, 41 if tier == "quick" else 81)):
+            ids[k + 1] = cfg(kd, n, m=MULTS[k % len(MULTS)])
+            xs = stream_patterns(rng, 3 * n + 12, -9, 9, lively=True)
+            xs[n // 2] = BIG
+            ops += [new_op(k + 1)] + [s_op(k + 1, x) for x in xs] + [{"op": "drop", "i": k + 1}]
+        jobs.append(scripted("%s_periods" % kd, ids, ops))
     # long runs of short periods (thousands of wrap-arounds; accumulators that resynchronise periodically)
     for kind in WINDOWED:
         for rep in range(2 if tier == "quick" else 4):
@@ -535,6 +545,19 @@ def plan_C05(tier, seed):
             jobs.append(Job("%s_cl_n%d" % (kind, n), {1: a, 2: a, 3: b}, initial={1, 3}, salpha=sa, balpha=(ba[:5] if ba and n >= 3 else ba), conts=conts,
                             maxdepth=depth + 3 * n + 12, noovf=False, invariants=inv, extra_defs="FreeDepth == FreeDepthOf(%d)" % (depth + 1),
                             extra_cfg="CONSTRAINT FreeDepth", threads=16, free_ids={1}))
+    # zeros of both signs (the harness's signed-zero unit feeds lattice 0 as -0.0 on every other call): which of two equal zeros a
+    # window scan picks is invisible numerically but not bit-for-bit, so a clone that lays its ring out differently shows here
+    for kind in ("SMA", "WMA", "SD", "MAD", "MIN", "MAX", "BB", "FAST_STOCH", "ROC", "ER", "EMA", "TR"):
+        for n in (2, 3):
+            if kind == "TR" and n > 2:
+                continue
+            a = kcfg(kind, n, alt=3)
+            ct = [{"op": "clone", "i": 1, "j": 2}]
+            for x in (-3, 0, -1, 0, 0, -2):
+                ct += [s_op(1, x), s_op(2, x)]
+            jobs.append(Job("%s_zeros_n%d" % (kind, n), {1: a, 2: a}, initial={1}, salpha={-1, 0}, conts=[ct], maxdepth=(8 if kind == "EMA" else 10**6) + 20,
+                            noovf=False, invariants=inv, free_ids={1},
+                            extra_defs="FreeDepth == FreeDepthOf(%d)" % (6 if kind == "EMA" else 10**6), extra_cfg="CONSTRAINT FreeDepth"))
     for kind in ALL22:
         # twins: two separately constructed instances (and a clone taken midway) with a longer window, fed the same stream
         n = rng.choice([5, 8, 20])
@@ -616,8 +639,14 @@ def plan_C06(tier, seed):
             xs = stream_patterns(rng, total, 1, 12, lively=True)
             k = 0
             cps = sorted(rng.sample(range(5, total - 600), 3))
-            for x in xs:
-                if rng.random() < 0.004:
+            # a spike (10^6 or 10^8 times the lattice step) has just left the window when a checkpoint is taken: parts of a composite
+            # that keep "the same" running sum in different association orders then hold different residues, and a serialized
+            # form that stores only one of them restores a different indicator
+            spike_at = {max(0, cp - n - 3 - j): (100 * BIG if j == 0 else BIG) for j, cp in enumerate(cps)}
+            for pos, x in enumerate(xs):
+                if pos in spike_at:
+                    x = spike_at[pos]
+                elif rng.random() < 0.004:
                     x = BIG
                 for i in live:
                     ops += to_ops(kind, i, [x])
@@ -653,6 +682,8 @@ def plan_C10(tier, seed):
     for kind in ALL22:
         for rep in range(2 if q else 6):
             n = rng.choice([1, 2, 3, 4, 5, 9, 14])
+            if rep == 1:
+                n = 1          # period 1 always (an identity average, a one-sample window: where per-path shortcuts are tempting)
             a = kcfg(kind, n, alt=rng.randint(0, 4))
             length = 300 if q else 1500
             ops = [new_op(i) for i in (1, 2, 3, 4, 5)]
@@ -803,6 +834,8 @@ def plan_C08(tier, seed):
             conts.append([{"op": "reset", "i": 1}] + flat_tail(kind, 3, L))       # flat from the very start of a reused instance
             if kind in HLC_KINDS and kind not in BAR_ONLY:                        # the same through Next<&T>: one-price bars
                 conts.append([b_op(1, bar(2, 2, 2, v=1)) for _ in range(L)])
+                # ... and both entry points of one instance alternating inside the flat stretch (one "previous close", not one per path)
+                conts.append([(b_op(1, bar(3, 3, 3, v=1)) if k % 2 == 0 else s_op(1, 3)) for k in range(L + 2)])
             unb = kind in UNBOUNDED
             depth = (n + 2 if q else n + 3) if unb or (kind in BAR_ONLY and n >= 2) else 10**6
             jobs.append(Job("%s_n%d" % (kind, n), {1: a}, salpha=sa, balpha=ba, conts=conts, maxdepth=depth + n + 6, noovf=False, invariants=inv,
@@ -998,6 +1031,16 @@ def plan_C17(tier, seed):
             else:
                 ops = to_ops(kind, 1, xs[:total])
             jobs.append(scripted("%s_hist%d_n%d" % (kind, rep, n), {1: a}, [new_op(1)] + ops, noovf=False, invariants=inv))
+        # every period of a range (code paths that depend on period mod 4, on a power of two, on a small-buffer threshold ...): one
+        # instance per period, a spike early on, then 3 windows of ordinary values
+        ids, ops = {}, []
+        for k, n in enumerate(list(range(1, 18)) + [20, 24, 31, 32, 33] + ([] if q else list(range(18, 20)) + list(range(34, 70)))):
+            i = k + 1
+            ids[i] = kcfg(kind, n, alt=k)
+            xs = regime_stream(rng, 3 * n + 20, 1, 15, big=False)
+            xs[min(n // 2 + 1, len(xs) - 1)] = BIG
+            ops += [new_op(i)] + to_ops(kind, i, xs) + [{"op": "drop", "i": i}]
+        jobs.append(scripted("%s_periods" % kind, ids, ops, noovf=False, invariants=inv))
     return {
         "min_by_kind": {"kinds": ["SMA", "WMA", "SD", "MAD", "MIN", "MAX", "FAST_STOCH", "BB", "CCI", "ROC", "ER", "MFI"], "values": 300}, "jobs": jobs, "parallel": 12,
         "rule": "for the 12 windowed kinds: every input sequence (no state merging) of length Memory+1 .. Memory+n+3 over {1,2,3, 10^6 spike} for periods 1..3 (1..4), and "
@@ -1285,6 +1328,15 @@ def plan_C14(tier, seed):
             else:
                 ops = [s_op(1, x) for x in stream_patterns(rng, L, 1, 30, lively=True)]
             jobs.append(scripted("%s_str%d_n%d" % (kind, rep, n), {1: a}, [new_op(1)] + ops, noovf=False, invariants=inv))
+        if kind in HLC_KINDS or kind in ("MFI", "OBV"):
+            # gaps of more than a decade between consecutive bars (a ratio test on prices survives rescaling but not a shift)
+            bs = []
+            for k in range(120 if q else 600):
+                base = rng.choice([1, 1, 2, 13, 25, 40]) if k % 3 else rng.choice([1, 30])
+                hi_ = base + rng.randint(0, 2)
+                lo_ = max(1, base - rng.randint(0, 1))
+                bs.append(bar(hi_, lo_, rng.randint(lo_, hi_), v=rng.choice([0, 1, 2, 5])))
+            jobs.append(scripted("%s_gaps" % kind, {1: kcfg(kind, rng.choice([1, 2, 3, 5]), alt=2)}, [new_op(1)] + [b_op(1, b) for b in bs], noovf=False, invariants=inv))
     return {
         "jobs": jobs, "parallel": 12,
         "rule": "(a) on the specification: for 21 kinds (RSI excluded) and factors/shifts (2,0), (3,0), (2,-1), (3,2), (1,2), TLC checks on every input sequence up to "
@@ -1322,6 +1374,11 @@ def plan_C15(tier, seed):
                     ba = ba[:6]
                 jobs.append(Job("%s_n%d_%d" % (kind, n, alt), {1: a}, salpha=sa, balpha=ba, resets=({1} if n <= 2 else ()), maxdepth=depth,
                                 noovf=(kind != "RSI"), invariants=inv))
+        if kind == "BB":
+            # spikes of 10^6 and 10^8 passing through the shortest windows (as in C01): afterwards the deviation part may report exactly 0
+            # on a window that is not constant, and the middle band must still be the SMA part's mean
+            for n in (1, 2):
+                jobs.append(Job("BB_spike_n%d" % n, {1: kcfg("BB", n, alt=n)}, salpha=A3 | {BIG, 100 * BIG}, noovf=False, invariants=inv))
         for rep in range(2 if q else 6):
             n = rng.choice([2, 3, 5, 9, 14, 20, 26, 50])
             a = cfg(kind, n, n2=rng.choice([1, 3, 9, 26]), n3=rng.choice([1, 9]), m=rng.choice(MULTS))
